@@ -174,7 +174,7 @@ func TestVX_C04(t *testing.T) {
 	L := 200
 	fams := []string{"ff", "seeded"}
 	if vx.Thorough() {
-		L = 520
+		L = 800
 		fams = []string{"ff", "a5", "zero", "seeded"}
 	}
 	_, raw := sm3.New().(*sm3.SM3)
